@@ -31,8 +31,9 @@ TOL = 1e-6
 def rot_near():
     """rotation spec whose angle is biased to within 1e-9 of 0 / pi"""
     ang = st.one_of(gens.rot_angles(-15), gens.logmag(-15, -9), gens.logmag(-15, -9).map(lambda d: PI - d), st.sampled_from([0.0, PI]))
-    generic = st.fixed_dictionaries({"axis": gens.direction3(), "angle": ang, "via": st.sampled_from(["rod", "quat"])})
-    return st.one_of(generic, generic, generic, generic, generic, gens.cube_rot())      # + exact axis relabellings (tied / zero matrix entries)
+    generic = st.fixed_dictionaries({"axis": gens.direction3(), "angle": ang, "via": st.sampled_from(["rod", "quat", "conj"])})
+    noisy = st.fixed_dictionaries({"axis": gens.direction3(), "angle": ang, "via": st.sampled_from(["rod", "quat", "conj"]), "noise": gens.rounding_noise()})
+    return st.one_of(generic, generic, generic, generic, noisy, gens.cube_rot())      # + exact axis relabellings (tied / zero matrix entries)
 
 
 def pose():
